@@ -38,7 +38,10 @@ def handleIntr (args : List Sexp) : String :=
         | some ls => ls.length
         | none => 0
       let looked := if n < len then n + 1 else n
-      if ro.skipped.isSome then runOutToWire ro else runOutToWire ro ++ " jl=" ++ toString looked
+      -- (not compared for a failed run: a load that fails does not say how far it got)
+      if ro.skipped.isSome then runOutToWire ro
+      else if hasFailed ro then runOutToWire ro ++ " jl=-"
+      else runOutToWire ro ++ " jl=" ++ toString looked
     | _, _, _, _, _, _ => "bad-case"
   | _ => "bad-case"
 
